@@ -46,6 +46,8 @@ def entry_ops(t):
         ("ctor.user", c(f"http://{t}@h/p")), ("ctor.password", c(f"http://u:{t}@h/p")), ("ctor.path", c(f"http://h/{t}")), ("ctor.path2", c(f"http://h/a/{t}/b")),
         ("ctor.query", c(f"http://h/p?{t}")), ("ctor.qkv", c(f"http://h/p?k={t}&{t}=v")), ("ctor.fragment", c(f"http://h/p#{t}")), ("ctor.relpath", c(f"a/{t}")),
         ("ctor.relative", c(t)), ("ctor.noauth", c(f"foo:{t}")), ("ctor.zone", c(f"http://[fe80::1%{t}]/p")),
+        # explicit default port: str() takes the port-eliding branch that rebuilds the authority
+        ("ctor.userinfo_defport", c(f"http://{t}:{t}@h:80/p")), ("ctor.userinfo_defport_v6", c(f"https://{t}@[::1]:443/p?{t}#{t}")),
     ]
     b = lambda **kw: {"op": "build", "kw": kw}
     out += [
@@ -58,7 +60,12 @@ def entry_ops(t):
     ]
     m = lambda name, *args, base=B: {"op": "mod", "base": base, "m": name, "args": list(args)}
     out += [
-        ("with_user", m("with_user", t)), ("with_password", m("with_password", t)), ("with_path", m("with_path", t)), ("with_path_rel", m("with_path", t, base=R)),
+        ("with_user", m("with_user", t)), ("with_password", m("with_password", t)),
+        ("with_user_defport", m("with_user", t, base={"op": "ctor", "s": "https://u:p@example.com:443/a?q#f"})),
+        ("with_password_defport", m("with_password", t, base={"op": "ctor", "s": "ws://u@example.com:80/a"})),
+        ("with_port_default_after", {"op": "mod", "base": m("with_user", t), "m": "with_port", "args": [{"t": "int", "v": "80"}]}),
+        ("with_scheme_makes_default", {"op": "mod", "base": m("with_password", t, base={"op": "ctor", "s": "http://u:p@example.com:443/a"}), "m": "with_scheme", "args": ["https"]}),
+        ("build.password_nouser", b(scheme="http", host="h", password=t)), ("build.password_emptyuser", b(scheme="http", host="h", user="", password=t)), ("with_path", m("with_path", t)), ("with_path_rel", m("with_path", t, base=R)),
         ("with_name", m("with_name", t)), ("with_name_rel", m("with_name", t, base=R)), ("with_suffix", m("with_suffix", "." + t)), ("with_fragment", m("with_fragment", t)),
         ("with_query_str", m("with_query", t)), ("with_query_dict", m("with_query", {"t": "dict", "v": [[t, t]]})),
         ("with_query_seq", m("with_query", {"t": "list", "v": [{"t": "tuple", "v": [t, t]}]})), ("with_query_mdict", m("with_query", {"t": "mdict", "v": [[t, t], [t, "2"]]})),
@@ -117,7 +124,7 @@ def run(ctx):
                 for entry, op in entry_ops(t):
                     cls = "ascii:%d" % ord(ch) if ord(ch) < 128 else text_classes(ch)
                     judge(ctx, entry, op, (entry, cls, cx))
-        ctx.sample({"entry": "join.base_escaped", "op": entry_ops("%4\udc80")[35][1]})
+        ctx.sample({"entry": "join.base_escaped", "op": dict(entry_ops("%4\udc80"))["join.base_escaped"]})
         ctx.notes["kernel_chars"] = len(chars)
         return
     og = OpGen(ctx.rng, surrogates=True)
